@@ -142,7 +142,9 @@ func c19(env *Env, rep *Report) {
 			}
 		}
 	}
-	set := func(b *rdp.Builder, i int, v any) { reflect.ValueOf(&b.Settings).Elem().Field(i).Set(reflect.ValueOf(v)) }
+	set := func(b *rdp.Builder, i int, v any) {
+		reflect.ValueOf(&b.Settings).Elem().Field(i).Set(reflect.ValueOf(v))
+	}
 	// (1) single and pairs
 	for i := 0; i < st.NumField(); i++ {
 		for vi, v := range c19Values(st.Field(i)) {
